@@ -90,6 +90,38 @@ func (e *Enc) orderObligations() {
 			}
 		}
 	}
+	// reflect.Value.MapKeys returns the keys in unspecified order: the slice must be sorted before any other use
+	for _, blk := range e.fn.Blocks {
+		for _, in := range blk.Instrs {
+			call, ok := in.(*ssa.Call)
+			if !ok {
+				continue
+			}
+			f := call.Common().StaticCallee()
+			if f == nil || f.Pkg == nil || f.Pkg.Pkg.Path() != "reflect" {
+				continue
+			}
+			switch f.Name() {
+			case "MapRange":
+				bad = append(bad, "reflect.Value.MapRange iterates in unspecified order")
+			case "MapKeys":
+				nLoops++
+				var acc ssa.Value = call
+				if refs := call.Referrers(); refs != nil {
+					for _, r := range *refs {
+						if st, isStore := r.(*ssa.Store); isStore && st.Val == ssa.Value(call) {
+							if cell, isCell := st.Addr.(*ssa.Alloc); isCell {
+								acc = cell // the slice lives in a variable cell (captured by the comparison closure)
+							}
+						}
+					}
+				}
+				if !e.sortedAfter(acc, &loopInfo{body: map[*ssa.BasicBlock]bool{}}) {
+					bad = append(bad, "the keys returned by reflect.Value.MapKeys are used before they are sorted")
+				}
+			}
+		}
+	}
 	goal := "true"
 	if len(bad) > 0 {
 		goal = "false"
@@ -244,6 +276,8 @@ func (e *Enc) sortedAfter(acc ssa.Value, li *loopInfo) bool {
 	}
 	switch a := acc.(type) {
 	case *ssa.Phi:
+		addValueUses(a)
+	case *ssa.Call:
 		addValueUses(a)
 	case *ssa.Alloc:
 		refs := a.Referrers()
